@@ -987,7 +987,16 @@ def gen_slv_acc(rng, tier):
         t = [kind, "acc", str(L), str(rng.randrange(2)), str(rng.randrange(4)), str(ncells), str(table), fnum(rtol), fnum(dt),
              fnum(h_start)] + [fnum(x) for x in k1] + [fnum(x) for x in k2] + [fnum(x) for x in a0]
         out.append(" ".join(t))
-    return out
+    # the same chain starting empty and fed by an emission (a0 < 0): one case in eight, derived from the cases above
+    extra = []
+    for i, l in enumerate(out):
+        if i % 8 == 3:
+            t = l.split()
+            ncells = int(t[5])
+            for j in range(len(t) - ncells, len(t)):
+                t[j] = fnum(-float(t[j]))
+            extra.append(" ".join(t))
+    return out + extra
 
 
 # spmap L reorder <mech>: vmap = (name, position in the species listing), in listing order
@@ -1000,4 +1009,14 @@ def gen_spmap(rng, tier):
         listing = [(nm, i) for i, nm in enumerate(names)]
         t = [rng.choice([0, 0, 2, 3]), rng.choice([0, 1, 1])] + mech_tokens(listing, rxns)
         out.append("spmap " + " ".join(map(str, t)))
+    return out
+
+
+# slvr|slvb hstart L csc lu dt : the first attempt of a built solver uses the configured h_start
+def gen_slv_hstart(rng, tier):
+    out = []
+    for kind in ("slvr", "slvb"):
+        for dt in (0.25, 2.0, 10.0, 600.0):
+            for L in (0, 2):
+                out.append("%s hstart %d %d %d %s" % (kind, L, rng.randrange(2), rng.randrange(4), fnum(dt)))
     return out
